@@ -40,6 +40,15 @@ def load_units():
         for u in mod.UNITS:
             u = dict(u)
             u.setdefault('module', m)
+            # a unit serves every property one of its target's postconditions is tagged with (the target's contract is
+            # the first entry of 'contracts' by construction of the unit helpers)
+            cs = u.get('contracts') or {}
+            if cs:
+                tags = set()
+                for e in cs[next(iter(cs))].get('ensures', []):
+                    if isinstance(e, tuple):
+                        tags.update(t for t in e[0].split('#')[0].split(',') if t)
+                u['props'] = list(u.get('props', [])) + sorted(tags - set(u.get('props', [])))
             units.append(u)
     ids = [u['id'] for u in units]
     assert len(ids) == len(set(ids)), 'duplicate unit ids'
@@ -84,12 +93,13 @@ def lower_group(args):
         try:
             b = U.UnitBuild(ast, u)
             txt = b.build()
+            nspec = b.native_const_spec(txt)
             cfile = os.path.join(work, '%s.%s.c' % (u['id'], variant))
             with open(cfile, 'w') as f:
                 f.write(txt)
             meta = {'lines': b.lines_meta, 'target': b.target_cname, 'notes': b.notes, 'bodies': list(b.ctx.fn_bodies),
                     'fn_mode': dict(b.ctx.fn_mode), 'fn_info': b.ctx.fn_info,
-                    'fn_decls': list(b.ctx.fn_decls), 'consts': {k: {'kind': v['kind'], 'concrete': v.get('concrete')} for k, v in b.ctx.consts.items()}}
+                    'fn_decls': list(b.ctx.fn_decls), 'consts': {k: {'kind': v['kind'], 'concrete': v.get('concrete')} for k, v in b.ctx.consts.items()}, 'native': nspec}
             out.append((u['id'], variant, cfile, meta, None, txt))
         except Unsupported as e:
             out.append((u['id'], variant, None, None, 'lowering: %s' % e, None))
@@ -110,7 +120,14 @@ class _B:
 def verify_job(args):
     u, variant, cfile, meta, work = args
     try:
+        note = None
+        if meta.get('native'):
+            err, note = U.run_native_const_check(meta['native'], os.path.join(work, 'native_%s_%s' % (re.sub(r'[^A-Za-z0-9_.]', '_', u['id']), variant)))
+            if err:
+                return (u['id'], variant, {'status': 'undecided', 'reason': err, 'obligations': [], 'times': {}, 'cmds': []})
         r = U.verify(cfile, work, u, meta['target'], _B(meta))
+        if note:
+            r['const_note'] = note
     except Exception as e:
         r = {'status': 'undecided', 'reason': 'verify crashed: %s' % e, 'obligations': [], 'times': {}, 'cmds': []}
     return (u['id'], variant, r)
@@ -137,6 +154,10 @@ def classify(u, meta, res):
             out['loop_obligations'] += 1
         if o['status'] == 'SUCCESS':
             out['discharged'] += 1
+        elif res.get('triage') and re.match(r'^__CPROVER_(requires|ensures)\(\(*g_clock\s*(<|<=|>=)', o.get('clause') or ''):
+            # bounds on the ghost clock are proof bookkeeping (they size the counters), not statements about the code: in a
+            # truncated search through a loop the spec does not know they decide nothing
+            out.setdefault('artifact_only', []).append(o['name'])
         else:
             out['failed'].append(o)
     return out
@@ -262,18 +283,28 @@ def main():
                    'target': meta['target'], 'times_s': {k: round(x, 2) for k, x in r.get('times', {}).items()},
                    'callees': {k: m for k, m in meta['fn_mode'].items() if k != meta['target']},
                    'loops': 'loop contracts' if any(c.get('loops') for nn, c in u.get('contracts', {}).items() if nn in meta.get('bodies', [])) else ('unwind %s with unwinding assertions' % u['unwind'] if u.get('unwind') else 'loop-free'),
-                   'notes': meta['notes'], 'back_end': 'cbmc 6.11 SAT (%s)' % (u.get('sat_solver') or 'cadical')}
+                   'notes': meta['notes'] + ([r['const_note']] if r.get('const_note') else []), 'back_end': 'cbmc 6.11 SAT (%s)' % (u.get('sat_solver') or 'cadical')}
             fi = meta['fn_info'].get(meta['target'], {})
             fns_under_contract[meta['target']] = '%s::%s [%s:%s]' % (fi.get('owner'), fi.get('name'), os.path.basename(str(fi.get('file'))), fi.get('line'))
             if r['status'] != 'done':
-                undecided.append((uid, v, r['reason']))
-                rep['status'] = 'undecided'; rep['reason'] = (r['reason'] or '')[:500]
+                why = r['reason'] or ''
+                if r.get('uncovered_loops'):
+                    why = 'loop(s) %s of the lowered code have no loop contract in the spec (new loop?); no failing obligation within the first iterations; ' % ', '.join(r['uncovered_loops']) + why
+                undecided.append((uid, v, why))
+                rep['status'] = 'undecided'; rep['reason'] = why[:500]
                 unit_reports.append(rep)
                 continue
             c = classify(u, meta, r)
             rep['obligations'] = c['n']; rep['discharged'] = c['discharged']; rep['canary_fails_as_required'] = c['canary_ok']
             has_loops = any(cc.get('loops') for nn, cc in u.get('contracts', {}).items() if nn in meta.get('bodies', []))
-            if not c['canary_ok']:
+            if r.get('triage') and not c['failed']:
+                undecided.append((uid, v, r['triage'] + ', but only bounds of the ghost clock (proof bookkeeping): undecided'))
+                rep['status'] = 'undecided'
+            elif r.get('triage'):
+                # failures found while searching the first iterations of a loop the spec does not know: real failures (paths are only
+                # cut), reported; canary / obligation counts do not apply to the truncated run
+                rep['status'] = 'failed'; rep['triage'] = r['triage']
+            elif not c['canary_ok']:
                 undecided.append((uid, v, 'vacuity: the reachability canary did not fail (contradictory requires / unsatisfiable callee contract)'))
                 rep['status'] = 'undecided'
             elif c['n'] == 0:
